@@ -87,9 +87,10 @@ pub fn type_cast<Data: GarnishData>(this: &mut Data) -> Result<Option<Data::Size
             this.end_list(list_index).and_then(|r| this.push_register(r))?
         }
         (GarnishDataType::Range, GarnishDataType::List) => {
-            let (start, end) = this.get_range(left.clone())?;
-            let len = end - start + Data::Size::one();
-            let (start, end, _) = get_range(this, left)?;
+            // the item count comes from the range's values, not from the addresses they are stored at;
+            // a descending range has no items
+            let (start, end, len) = get_range(this, left)?;
+            let len = <Data as GarnishData>::DataFactory::number_to_size(len).unwrap_or(Data::Size::zero());
             let mut count = start;
 
             let mut list_index = this.start_list(len)?;
